@@ -56,13 +56,13 @@ fn prop_cfg(prop: &str) -> Option<PropCfg> {
         "C06" => PropCfg { level: "exploration", quick_count: 40000, thorough_count: 600000, both_profiles: false, rule: "as the equivalence checks, but every heap block made during execution sits flush against a PROT_NONE page (side by coin), with poison, canaries, optional same-address reuse and random legal pre-growth; non-trivial iff canonical run has >=1 loop iteration and >=1 I/O event" },
         "C07" => PropCfg { level: "exploration", quick_count: 4000, thorough_count: 120000, both_profiles: true, rule: "one run = one scenario x all four backends x a ladder of ~35 budgets (0..3, two random <33, geometric to 2^20, neighbourhood of the canonical back-edge count, 2^62 and 2^63-1 for halting programs); non-trivial iff canonical run has >=1 loop iteration and >=1 I/O event" },
         "C08" => PropCfg { level: "fault_enumeration", quick_count: 10000, thorough_count: 150000, both_profiles: false, rule: "one run = one scenario with a halting (or printing-divergent) canonical history; every single-fault plan is enumerated when the history has <=256 events (each input request failing, each output refused as Ok(0) and as Err, no reader, no writer), sampled otherwise, on all backends x 2 levels; non-trivial iff canonical run has >=1 loop iteration and >=1 I/O event" },
-        "C09" => PropCfg { level: "exploration", quick_count: 25000, thorough_count: 1500000, both_profiles: false, rule: "one run = 8 generated histories of 1-60 calls on runtime::Memory (mov, read, write, make_accessible incl. two-sided, empty and reversed ranges, check, set_current_ptr/current_ptr, check_ptr) at a random width, offsets aimed near 0, at the live allocation edges +-2 (found by probing with check) and far (+-1e6), 7 of 8 under the guard allocator; a history is non-trivial iff the tape grew at least once and a non-zero value was read back after a growth" },
+        "C09" => PropCfg { level: "exploration", quick_count: 25000, thorough_count: 1500000, both_profiles: false, rule: "one run = 8 generated histories of 1-60 calls on runtime::Memory (mov, read, write, make_accessible incl. two-sided, empty and reversed ranges, check, set_current_ptr/current_ptr, check_ptr) at a random width, offsets aimed near 0, at the live allocation edges +-2 (found by probing with check), beyond an edge by a fraction of the current size (also two-sided), far (+-1e6) and, in one history out of six, on far excursions of 2^31..2^63 cells (read, check, mov there and back; cells out there are never written), 7 of 8 under the guard allocator; a history is non-trivial iff the tape grew at least once and a non-zero value was read back after a growth" },
         "C10" => PropCfg { level: "exploration", quick_count: 100000, thorough_count: 1500000, both_profiles: false, rule: "one run = one halting scenario executed with execute_unsafe on bcint and basejit at levels 0..3 inside a region pre-grown to excursion+program length+1 on each side and rounded to whole pages so that PROT_NONE pages touch both ends; non-trivial iff canonical run has >=1 loop iteration and >=1 I/O event" },
         "C11" => PropCfg { level: "exploration", quick_count: 20000, thorough_count: 600000, both_profiles: false, rule: "one run = one generated program x levels 0..3 x generator settings (2 registers with fusion | 11 registers without); structural invariants are checked exactly on every instruction of the generated bytecode; the checked bytecode machine then executes it against 3 peers with every register temporary not declared live across a non-branch instruction destroyed at that instruction; non-trivial iff the canonical run of some peer has >=1 loop iteration and >=1 I/O event; branch-arm coverage is reported" },
-        "C13" => PropCfg { level: "exploration", quick_count: 7000, thorough_count: 400000, both_profiles: true, rule: "one run = 4 (program, width, level) triples (families: expression-explosion shapes, nesting 20-200, pressure, raw, corpus, structured); each is built by all four executors (+4 machine-code variants) under catch_unwind in both build profiles, compiled under 4 hash seeds of the bytecode generator's hash containers with 0-3 unrelated programs compiled in between, artefact digests compared across seeds, across processes and across profiles, and each executor is run 3 times on fresh contexts at two budgets; non-trivial iff the program has a loop" },
-        "C16" => PropCfg { level: "exploration", quick_count: 6000, thorough_count: 200000, both_profiles: false, rule: "one run = 8 generated process scenarios for the real hpbf binary: 1-3 code fragments as bare arguments or -f files in random order, interleaved with width/backend/level flags (0-2 of each, last wins), optionally a print option, --limit (small, huge, or not a number), --static, --time, -h; file faults (missing, directory, non-UTF-8, empty), unbalanced source, trailing -f; stdin is a generated byte string in a regular file; non-trivial iff the scenario executes a program whose canonical run has >=1 loop iteration and >=1 I/O event" },
-        "C17" => PropCfg { level: "fault_enumeration", quick_count: 8000, thorough_count: 200000, both_profiles: false, rule: "one run = one halting roaming scenario x 4 backends; the fault-free run under the guard allocator counts the in-zone allocation requests N (tape growths, bcint context, threaded-code and other Vecs) and then request k is made to return null for every k in 1..=N (24 sampled if N>24), each in a forked child; non-trivial iff the failure fired" },
-        "C18" => PropCfg { level: "exploration", quick_count: 300000, thorough_count: 5000000, both_profiles: false, rule: "one run = 16 generated histories of 1-40 operations (constructors, push, extend, clear, retain, retain_mut with mutation, dedup, sort, clone, ==, cmp, hash, index, iter, iter_mut, by-value iteration abandoned after j items, drop) over up to 3 vectors with inline capacity 1 or 2, element type u32 or a drop-tracked type; slice view compared with a Vec model after every operation, drop ledger at the end; non-trivial iff some vector crossed the inline/heap boundary and at least one removing operation ran" },
+        "C13" => PropCfg { level: "exploration", quick_count: 7000, thorough_count: 400000, both_profiles: true, rule: "one run = 4 (program, width, level) triples (families: expression-explosion shapes, nesting 20-200, pressure, raw, corpus, structured); each is built by all four executors (+4 machine-code variants) under catch_unwind in both build profiles, compiled under 4 hash seeds of the bytecode generator's hash containers with 0-3 unrelated programs compiled in between, artefact digests compared across seeds, across processes and across profiles, one check in six is a growth pair (the same construction at size parameter k and 2k: allocator traffic of compilation may grow at most 32-fold), and each executor is run 3 times on fresh contexts at two budgets; non-trivial iff the program has a loop" },
+        "C16" => PropCfg { level: "exploration", quick_count: 6000, thorough_count: 200000, both_profiles: false, rule: "one run = 8 generated process scenarios for the real hpbf binary: 1-3 code fragments as bare arguments or -f files in random order, interleaved with width/backend/level flags (0-2 of each, last wins), optionally a print option, --limit (small, huge, or not a number), --static, --time, -h; file faults (missing, directory, non-UTF-8, empty, a multi-byte character split over two files), named pipes as -f sources, multi-byte comment characters straddling 4 KiB..128 KiB offsets, unbalanced source, trailing -f, --static under an address-space limit of 128-400 MiB (abort before running expected); stdin is a generated byte string in a regular file; non-trivial iff the scenario executes a program whose canonical run has >=1 loop iteration and >=1 I/O event" },
+        "C17" => PropCfg { level: "fault_enumeration", quick_count: 8000, thorough_count: 200000, both_profiles: false, rule: "one run = one halting roaming scenario x 4 backends; the fault-free run under the guard allocator counts the in-zone allocation requests N (tape growths, bcint context, threaded-code and other Vecs) and then request k is made to return null for every k in 1..=N (24 sampled if N>24), each in a forked child; one scenario in six starts on a tape of 1e5-4e5 cells; one in three adds a far-start check (pointer parked 2^44..2^62 cells away, tiny writing program on each backend, abort or panic expected, a death after the caught panic or an unknown free is the violation); every second run adds a tape history containing a request no allocator can serve (forked child, catch_unwind: abort, or panic with the tape unchanged); non-trivial iff the failure fired" },
+        "C18" => PropCfg { level: "exploration", quick_count: 300000, thorough_count: 5000000, both_profiles: false, rule: "one run = 16 generated histories of 1-40 operations (constructors, push, extend, clear, retain, retain_mut with mutation, dedup, sort, clone, ==, cmp, hash, index, iter, iter_mut, by-value iteration abandoned after j items, drop) over up to 3 vectors with inline capacity 1 or 2, now and then 126..513 elements long, element type u32, a drop-tracked type (with one value that is not equal to itself) or a zero-sized type with a destructor; out-of-range indexing must panic, retain with a predicate that panics at its k-th call must never drop twice, equal vectors in either representation must hash equally under std SipHash and hpbf's FastHasher; slice view compared with a Vec model after every operation, drop ledger at the end; non-trivial iff some vector crossed the inline/heap boundary and at least one removing operation ran" },
         _ => return None,
     })
 }
